@@ -372,6 +372,9 @@ protected:
     template<bool have_pool>
     async<void> worker_coro(std::stop_token state) {
         std::stop_callback stop_notify(state, [&]{
+            //notify under the lock - otherwise the notification can be lost when
+            //the worker is between the check of stop_requested() and wait_until()
+            std::lock_guard _(_mx);
             _cond.notify_all();
         });
         std::unique_lock lk(_mx);
